@@ -8,7 +8,26 @@ from irlib import tyname
 
 
 def run(rep, repo, tier):
-    rep.explanation = ''
+    rep.explanation = (
+        'Abstract interpretation of every anchored routine on exactly-sized, non-terminated buffers (symbolic length, may be '
+        '0) or C strings with a symbolic terminator position: every load/store/memcpy/memchr/memcmp/strchr access is proved '
+        'inside the extent it was given - igris_memmem, replace_substrings (output bounded by maxsize), igris::replace, '
+        'igris::split (char and delimiter-set forms), split_cmdargs, trim, dstring, join (reserve == sum of the parts), '
+        'argvc_length_of_first / argvc_internal_split / argvc_internal_split_n, the four shell dispatchers, all path_* '
+        'helpers and the creader scanners. Result clauses: memmem answers none for an empty needle/haystack or a needle '
+        'longer than the haystack and a match lies inside the haystack, its scan starts at the first byte and ends at the '
+        'last possible position; the replace loops search from the cursor to the end of the input with the needle length '
+        'and continue behind the match; every token pointer stored into argv / every token handed to the output vector '
+        'points into the line, argc is within 0..argcmax and 0 for an empty line; a dispatcher reads argv[k] only where '
+        'k < argc (blank line tolerated), compares the first token with each table entry up to the sentinel, invokes the '
+        'handler of exactly the matching entry as func(argc - d, argv + d) and answers ENOENT otherwise; path helpers: '
+        'closed-form results of is_single_dot/is_double_dot/is_abs, next/iterate return a pointer into the string or NULL '
+        'only for an empty string, no NULL result is dereferenced, compare_node returns -1/0/1 with 0 only when both nodes '
+        'end; creader_readline/skip/skipws keep strt <= cursor <= fini and return a length inside the text. '
+        'Not decided: functional equality of split/join/trim/replace/path helpers with a reference (token contents), '
+        'treatment of embedded NULs by the strchr-based splitters.')
+    rep.assumptions += ['buffers handed to one call do not overlap', 'command tables end with a func == NULL sentinel and '
+                        'hold NUL-terminated names', 'std::string / std::vector members are opaque and trusted']
     run_memmem(rep, repo)
     run_replsub(rep, repo)
     run_argvc(rep, repo)
@@ -17,6 +36,14 @@ def run(rep, repo, tier):
     run_creader(rep, repo)
     run_stringcpp(rep, repo)
     run_replacecpp(rep, repo)
+    # floors: instance counts confirmed by hand on the tree the rules were written for (about 60 % of them)
+    for rule, n in (('R-MEMMEM:bounds', 2), ('R-MEMMEM:post', 4), ('R-MEMMEM-SCAN', 3), ('R-REPLSUB:bounds', 3),
+                    ('R-REPLACE-STEP', 6), ('R-REPLACE:bounds', 2), ('R-ARGVC:bounds', 4), ('R-ARGVC:post', 8),
+                    ('R-ARGVC:token-in-line', 2), ('R-SHELL:argv-init', 4), ('R-SHELL:handler-args', 4),
+                    ('R-SHELL:bounds', 10), ('R-DISPATCH', 20), ('R-PATH:bounds', 10), ('R-PATH:post', 20),
+                    ('R-PATH:null-result', 1), ('R-CREADER:bounds', 10), ('R-CREADER:post', 9), ('R-SPLIT:bounds', 10),
+                    ('R-SPLIT:token-in-buffer', 3), ('R-TRIM:bounds', 2), ('R-JOIN', 3)):
+        rep.floor(rule, n)
 
 
 def run_memmem(rep, repo):
